@@ -61,10 +61,6 @@ FINDINGS = [
     ("C10-empty-body", r"^compile:ValueError:empty body on \w+$", "has_empty_form",
      "(for [x y] (require)): body forms that compile to no statements leave For/AsyncFor/If with an empty statement list; "
      "compile() raises ValueError (the try/finally case was fixed by c90ef71)"),
-    ("C10-bare-except-star-crash", r"^hy_compile:ProcessKilled:the compiler process was killed by signal N$", "bare_except_star",
-     "(try ... (except* [] ...)) compiles to TryStar with a handler without type -- not expressible in Python (`except*:` is a "
-     "syntax error), accepted by compile(), and CPython dies with SIGSEGV when the handler is reached; when the form is "
-     "evaluated at compile time, e.g. (do-mac (try (/ 1 0) (except* [] 1))), the compiler process itself is killed"),
     ("C10-toplevel-nonlocal-list", r"^compile:TypeError:required field \"lineno\" missing from stmt$", "has_nonlocal",
      "(+= c (nonlocal c)): ResolveOuterVars.visit_OuterVar returns a list, which hy_compile places into the module body "
      "when the nonlocal form sits in the top-level statement list; compile() raises TypeError"),
@@ -81,6 +77,7 @@ FINDINGS = [
 
 
 FIXED = [
+    ("C10-bare-except-star-crash", "c7c0bc3", "(try ... (except* [] ...)): TryStar with a handler without type; evaluated at compile time it killed the compiler process"),
     ("C10-falsy-literal-truth-test", "f69d795", "(defclass :tp [#^ 0 T] C): a falsy type-parameter bound reached the AST uncompiled (TypeError from compile())"),
     ("C10-matchor-short", "61b21a1", "(match x (|) y): MatchOr with fewer than two alternatives (ValueError from compile()); now a syntax error"),
     ("C10-match-value-bare-dot", "d2a83e6", "(match x (. y) z): MatchValue(Name) (ValueError from compile()); now a syntax error"),
